@@ -161,14 +161,17 @@ package eval
 //@   ensures  @C01 nil:: implies(isNull(left), isNull(result))
 //@   ensures  frame:: frame(s)
 //@   ensures  regs:: regsame()
+//@   ensures  @C04 mono:: missmono()
 //@   onpanic ensures regs:: regsame()
 //@   safety C01 C07
-//@   property C01 C07 C10
+//@   property C01 C07 C10 C04
 
 // ---- session frame (C10, C09 depth, C05): every evaluation step returns with the scope, the recursion depth and
 // the output writer it was entered with (normal returns; panics are handled by repl.EvalOne, see C10). ----
 //@ define frame(s) = s.depth == old(s.depth) && s.env == old(s.env) && s.Out == old(s.Out) && s.env.numReg == old(s.env.numReg)
 // No scope that existed before the step has a different number of registers in use after it.
+// The count of lookups that leave a scope (what makes a call uncacheable, C04) never goes down.
+//@ define missmono() = forallv(func(e *object.Environment) bool { return implies(old(allocated(e)), e.getMiss >= old(e.getMiss)) })
 //@ define regsame() = forallv(func(e *object.Environment) bool { return implies(old(allocated(e)), e.numReg == old(e.numReg)) })
 
 //@ func (*State).Eval
@@ -180,22 +183,25 @@ package eval
 //@   ensures  @assumed wfval:: object.wfVal(result)
 //@   ensures  frame:: frame(s)
 //@   ensures  regs:: regsame()
+//@   ensures  @C04 mono:: missmono()
 //@   onpanic ensures regs:: regsame()
 //@   ensures  depthguard:: old(s.depth) <= old(s.MaxDepth)
-//@   property C10 C09 C07
+//@   property C10 C09 C07 C04
 
 // Members of the evaluator family: each is verified against the frame clause assuming the others' contracts.
-//@ funcs (*State).evalInternal, (*State).evalIfExpression, (*State).evalPostfixExpression, (*State).evalStatements, (*State).evalForExpression, (*State).evalForList, (*State).evalIdentifier, (*State).evalPrefixIncrDecr, (*State).evalAssignment, (*State).evalPipe, (*State).evalIndexExpression, (*State).evalMapLiteral, (*State).evalPrintLogError, (*State).evalDelete, (*State).evalBuiltin, (*State).applyFunction, (*State).evalForSpecialForms
+//@ funcs (*State).evalInternal, (*State).evalIfExpression, (*State).evalPostfixExpression, (*State).evalStatements, (*State).evalForExpression, (*State).evalForList, (*State).evalIdentifier, (*State).evalPrefixIncrDecr, (*State).evalAssignment, (*State).evalPipe, (*State).evalIndexExpression, (*State).evalMapLiteral, (*State).evalPrintLogError, (*State).evalDelete, (*State).evalBuiltin, (*State).evalForSpecialForms
 //@   requires s != nil && s.env != nil
 //@   modifies heap
 //@   nosafety
 //@   maypanic *
 //@   loop * invariant s.depth == old(s.depth) && s.env == old(s.env) && s.Out == old(s.Out) && s.env.numReg == old(s.env.numReg)
 //@   loop * invariant regsame()
+//@   loop * invariant @C04 missmono()
 //@   ensures  frame:: frame(s)
 //@   ensures  regs:: regsame()
+//@   ensures  @C04 mono:: missmono()
 //@   onpanic ensures regs:: regsame()
-//@   property C10
+//@   property C10 C04
 
 // Index assignment and element deletion (C06): the container value that was bound before the statement - which other
 // bindings, arguments and container elements may still denote - keeps its elements.
@@ -206,10 +212,11 @@ package eval
 //@   maypanic *
 //@   ensures  frame:: frame(s)
 //@   ensures  regs:: regsame()
+//@   ensures  @C04 mono:: missmono()
 //@   onpanic ensures regs:: regsame()
 //@   ensures  @C06 arrvalue:: memsame(object.Object)
 //@   ensures  @C06 mapvalue:: memsame(object.keyValuePair)
-//@   property C10 C06
+//@   property C10 C06 C04
 
 //@ func (*State).evalMapInfixExpression
 //@   requires s != nil && left != nil && right != nil
@@ -226,9 +233,30 @@ package eval
 //@   maypanic *
 //@   ensures  frame:: frame(s)
 //@   ensures  regs:: regsame()
+//@   ensures  @C04 mono:: missmono()
 //@   onpanic ensures regs:: regsame()
 //@   ensures  @C06 mapvalue:: memsame(object.keyValuePair)
-//@   property C10 C06
+//@   property C10 C06 C04
+
+// applyFunction (C04): a result is only remembered when evaluating the body did no lookup outside the callee's own scope
+// and called no non-deterministic extension (both are counted in the callee scope's getMiss), and is not an error;
+// and a call that could not be cached is counted in the caller's scope, so the caller is not cached either.
+//@ func (*State).applyFunction
+//@   requires s != nil && s.env != nil
+//@   modifies heap
+//@   nosafety
+//@   maypanic *
+//@   witness before = callresult after GetMisses#1
+//@   witness after = callresult after GetMisses#2
+//@   witness body = callresult after Eval#1
+//@   precall Set requires @C04 nomiss:: after == before
+//@   precall Set requires @C04 noterror:: !isErr(body)
+//@   ensures  frame:: frame(s)
+//@   ensures  regs:: regsame()
+//@   ensures  @C04 mono:: missmono()
+//@   ensures  @C04 propagate:: implies(captured(after) && after != before, s.env.getMiss > old(s.env.getMiss))
+//@   onpanic ensures regs:: regsame()
+//@   property C10 C04
 
 // quote evaluates unquote() calls through an ast.Modify callback that re-enters evalInternal: the callback's frame
 // cannot be carried through the assumed ast.Modify contract, so the member is assumed.
@@ -237,6 +265,7 @@ package eval
 //@   modifies heap
 //@   ensures  frame:: frame(s)
 //@   ensures  regs:: regsame()
+//@   ensures  @C04 mono:: missmono()
 //@   onpanic ensures regs:: regsame()
 
 //@ func (*State).evalIndexRangeExpression
@@ -252,9 +281,10 @@ package eval
 //@   ensures  @C01 negslice:: implies(isStr(left) && isInt(li) && rightIdx != nil && isInt(ri) && intVal(li) < 0 && intVal(ri) < 0 && -len(strVal(left)) <= intVal(li) && intVal(li) <= intVal(ri), isStr(result) && strVal(result) == strVal(left)[intVal(li)+len(strVal(left)):intVal(ri)+len(strVal(left))])
 //@   ensures  frame:: frame(s)
 //@   ensures  regs:: regsame()
+//@   ensures  @C04 mono:: missmono()
 //@   onpanic ensures regs:: regsame()
 //@   safety C01 C07
-//@   property C01 C07 C10
+//@   property C01 C07 C10 C04
 
 // applyExtension: what every extension callback may rely on (argument count within [MinArgs, MaxArgs]).
 //@ func (*State).applyExtension
@@ -264,13 +294,16 @@ package eval
 //@   maypanic *
 //@   dyncall Callback requires mincount:: len(arg2) >= fn.MinArgs
 //@   dyncall Callback requires maxcount:: fn.MaxArgs == -1 || len(arg2) <= fn.MaxArgs
+//@   dyncall Callback requires @C04 nocache:: implies(fn.DontCache, s.env.getMiss > old(s.env.getMiss))
+//@   dyncall Callback ensures @C04 missmono()
+//@   ensures  @C04 mono:: missmono()
 //@   dyncall Callback ensures s.depth == old(s.depth) && s.env == old(s.env) && s.Out == old(s.Out) && s.env.numReg == old(s.env.numReg) && result != nil
 //@   dyncall Callback ensures regsame()
 //@   dyncall Callback onpanic regsame()
 //@   ensures  frame:: frame(s)
 //@   ensures  regs:: regsame()
 //@   onpanic ensures regs:: regsame()
-//@   property C07 C10
+//@   property C07 C10 C04
 
 // Operators that grow strings / arrays: every allocation whose size is a program value must be covered by the
 // memory guard (guard.alloc obligations, generated for property C09), and size computations must not overflow.
@@ -321,11 +354,13 @@ package eval
 //@   loop 1 invariant s.depth == old(s.depth) && s.env == old(s.env) && s.Out == old(s.Out) && s.env.numReg == old(s.env.numReg)
 //@   loop 1 invariant forall(0, len(result), func(k int) bool { return !isType(result[k], *object.Register) })
 //@   loop 1 invariant regsame()
+//@   loop 1 invariant @C04 missmono()
 //@   ensures  frame:: frame(s)
 //@   ensures  regs:: regsame()
+//@   ensures  @C04 mono:: missmono()
 //@   onpanic ensures regs:: regsame()
 //@   ensures  noreg:: implies(result1 == nil, forall(0, len(result0), func(k int) bool { return !isType(result0[k], *object.Register) }))
-//@   property C05 C10
+//@   property C05 C10 C04
 
 //@ func (*State).extendFunctionEnv
 //@   requires s != nil && currrentEnv != nil && allocated(s.env)
@@ -336,11 +371,13 @@ package eval
 //@   loop 1 invariant env != nil && 0 <= env.numReg && env.numReg <= 8 && env != old(s.env)
 //@   loop 1 invariant s.depth == old(s.depth) && s.env == old(s.env) && s.Out == old(s.Out) && s.env.numReg == old(s.env.numReg)
 //@   loop 1 invariant regsame()
+//@   loop 1 invariant @C04 missmono()
 //@   ensures  frame:: frame(s)
 //@   ensures  regs:: regsame()
+//@   ensures  @C04 mono:: missmono()
 //@   onpanic ensures regs:: regsame()
 //@   ensures  capacity:: implies(result2 == nil, result0 != nil && 0 <= result0.numReg && result0.numReg <= 8)
-//@   property C05 C10
+//@   property C05 C10 C04
 
 //@ func (*State).evalForInteger
 //@   requires s != nil && s.env != nil
@@ -351,11 +388,13 @@ package eval
 //@   ensures  frame:: frame(s)
 //@   ensures  balance:: s.env.numReg == old(s.env.numReg)
 //@   ensures  regs:: regsame()
+//@   ensures  @C04 mono:: missmono()
 //@   onpanic ensures regs:: regsame()
 //@   loop 1 invariant forallv(func(e *object.Environment) bool { return implies(old(allocated(e)) && e != s.env, e.numReg == old(e.numReg)) })
+//@   loop 1 invariant @C04 missmono()
 //@   loop 1 invariant s.depth == old(s.depth) && s.env == old(s.env) && s.Out == old(s.Out)
 //@   loop 1 invariant s.env.numReg == old(s.env.numReg) + ite(ptr != nil, 1, 0)
-//@   property C05 C10
+//@   property C05 C10 C04
 
 //@ func (*State).Reset
 //@   requires s != nil
